@@ -1,13 +1,15 @@
 import AkVerif.Model.Proto
 import AkVerif.Model.GhistComp
+import AkVerif.Model.GhistTags
 open Ak Ak.Proto Ghist
 
 /-!
 `ord <id>@<deps> …`                       → `ok <sorted ids>` | `err ValueError`
 `col <remote> <id>@<deps>@<commits>@<refs> …` (repositories in the order supplied)
 * deps    : comma list of repository ids or `-`
-* commits : `;`-separated `parents:tags:match:time:pins` (`time` = commit time in seconds; `pins` = `+`-separated
-            `comp=major.minor.patch` or `-`)
+* commits : `;`-separated `parents:tags:match:time:saved:pins` (`tags` = `+`-separated tag names as code points or `-`;
+            `time` = commit time in seconds; `saved` = `major.minor` of the commit's version file or `-`; `pins` =
+            `+`-separated `comp=major.minor.patch` or `-`)
 * refs    : `;`-separated `name:head`
 reply: `ok o=<sorted ids> r=<id> <branch> … r=<id> …`, branch = `name=build;…`,
 build = `N|M:bn:commit|-:commits:bumps:included_at`, bumps = `+`-separated `comp>to<from/from…`,
@@ -19,8 +21,14 @@ def parseBN (s : String) : Option BN :=
   | some [a, b, c, d] => some ⟨a, b, c, d⟩
   | _ => none
 
-def parseTags (s : String) : Option (List BN) :=
-  if s = "-" then some [] else (s.splitOn "+").mapM parseBN
+def parseTagNames (s : String) : Option (List (List Char)) :=
+  if s = "-" then some [] else (s.splitOn "+").mapM parseCps
+
+def parseSaved (s : String) : Option (Option (Nat × Nat)) :=
+  if s = "-" then some none
+  else match (s.splitOn ".").mapM (·.toNat?) with
+    | some [a, b] => some (some (a, b))
+    | _ => none
 
 def parsePin (s : String) : Option (Nat × Ver) :=
   match s.splitOn "=" with
@@ -35,11 +43,14 @@ def parsePins (s : String) : Option Pins :=
 
 def parseCommit (s : String) : Option (Commit Pins) :=
   match s.splitOn ":" with
-  | [p, t, m, ts, q] =>
-    match parseNatList p, parseTags t, m.toNat?, ts.toNat?, parsePins q with
-    | some ps, some tg, some k, some time, some pins =>
-      some { parents := ps, tags := tg, isMatch := k != 0, pins := pins, time := time }
-    | _, _, _, _, _ => none
+  | [p, t, m, ts, sv, q] =>
+    match parseNatList p, parseTagNames t, m.toNat?, ts.toNat?, parseSaved sv, parsePins q with
+    | some ps, some tg, some k, some time, some saved, some pins =>
+      match (RawCommit.toCommit { parents := ps, tagNames := tg, saved := saved, isMatch := k != 0, pins := pins,
+                                  time := time }) with
+      | .ok c => some c
+      | .error _ => none        -- a build tag that needs the saved version of a commit that has none: refused
+    | _, _, _, _, _, _ => none
   | _ => none
 
 def parseList {α} (f : String → Option α) (s : String) : Option (List α) :=
